@@ -477,6 +477,8 @@ func scopeGen() []*SrcPkg {
 		{"[T any] interface{ M() Box[T]; N(Box[Box[T]]) }", "nested inst"},
 		{"[T @{fmt}.Stringer] interface{ M(T) string }", "stringer"},
 		{"[T interface{ *Loc | *Int }] interface{ M(T) }", "ptr union inline"},
+		{"[T Ordered[T]] interface{ Sort(xs []T) T }", "self-referential constraint"},
+		{"[A Ordered[B], B Ordered[A]] interface{ Cmp(a A, b B) bool }", "mutually referential constraints"},
 		{"[A any, B any, C any] interface{ M(A, B) C; N(C) (A, B) }", "three"},
 	}
 	for _, t := range two {
@@ -601,16 +603,16 @@ func scopeListPkg() *SrcPkg {
 	sp.Files = []SrcFile{
 		{Name: "a.go", Decls: "type LA interface{ M(afoo int, x @{~/a/foo}.T) }\n\ntype LD interface{ D(@{~/a/foo}.T) @{~/a/foo}.T }\n"},
 		{Name: "b.go", Decls: "type LB interface{ N(y @{~/b/foo}.T) }\n"},
-		{Name: "c.go", Decls: "type LC interface{ P(s string, t @{time}.Time) error }\n\ntype LE[T any] interface{ Q(T) (T, error) }\n\ntype LF interface{ R(Loc) }\n\ntype LG = interface{ Do(int) }\n\ntype LH = interface{ Do(s string) error }\n"},
+		{Name: "c.go", Decls: "type LC interface{ P(s string, t @{time}.Time) error }\n\ntype LE[T any] interface{ Q(T) (T, error) }\n\ntype LF interface{ R(Loc) }\n\ntype LZ interface{}\n\ntype LG = interface{ Do(int) }\n\ntype LH = interface{ Do(s string) error }\n"},
 	}
-	for _, n := range []string{"LA", "LB", "LC", "LD", "LE", "LF", "LG", "LH"} {
+	for _, n := range []string{"LA", "LB", "LC", "LD", "LE", "LF", "LG", "LH", "LZ"} {
 		sp.Ifaces = append(sp.Ifaces, IfaceCase{Name: n, Scope: "S-list"})
 	}
 	return sp
 }
 
 func scopeListArgs() [][]string {
-	pool := []string{"LA", "LB", "LC", "LD", "LE", "LF"}
+	pool := []string{"LA", "LB", "LC", "LD", "LE", "LF", "LZ"}
 	var out [][]string
 	var cur []string
 	var rec func(custom bool)
